@@ -8,7 +8,7 @@
 From Coq Require Import Strings.String Strings.Byte.
 From Coq Require Import List Arith NArith ZArith Bool Lia.
 From Verif Require Import Base.Bytes Base.Val Base.Outcome Model.Quote Model.Args Model.Numfmt
-  Model.StatusQuery Model.Xfer Model.RawProto.
+  Model.StatusQuery Model.Xfer Model.RawProto Model.Md5.
 From Verif Require Corr.C12.
 Import ListNotations.
 
@@ -30,6 +30,20 @@ Definition msg_of (v : val) : option msg :=
   | _ => None
   end.
 
+(* the gzip filter refuses to inflate beyond xfer.SizeLimit, which the socket package keeps
+   equal to the message size limit (xfer/gzip/gzip.go OnUnpack after the C06 repair) *)
+Definition gzip_filter_lim (lim : N) (t : list (bytes * bytes)) : filter :=
+  let g := Corr.C12.gzip_filter t in
+  mkFilter (f_id g) (f_pack g)
+    (fun d => match f_unpack g d with
+              | Some x => if N.ltb lim (blen x) then None else Some x
+              | None => None
+              end).
+
+Definition registry_lim (lim : N) (t : list (bytes * bytes)) : registry :=
+  [Corr.C12.xor_filter; Corr.C12.rev_filter; Corr.C12.lenp_filter;
+   md5_filter Model.Md5.md5 "m"%byte; gzip_filter_lim lim t].
+
 Definition fields_val (m : msg) (ids : list byte) (size : N) : val :=
   VL [vsym "ok";
       VL [VZ (m_seq m); VB [m_mtype m]; VB (m_method m); VB (status_encode (m_status m));
@@ -47,7 +61,7 @@ Definition run (inp : val) : option val :=
       if bytes_eqb mode (str "pack") then
         match msg_of mv, Corr.C12.pairs_of gz with
         | Some m, Some t =>
-            let reg := Corr.C12.registry_of t in
+            let reg := registry_lim lim t in
             match pipe_append reg [] ids with
             | (p, None) =>
                 match raw_pack lim p m with
@@ -62,7 +76,7 @@ Definition run (inp : val) : option val :=
   | VL [VS mode; VN lim; VL gz; VB s] =>
       if bytes_eqb mode (str "stream") then
         match Corr.C12.pairs_of gz with
-        | Some t => Some (stream_val (Corr.C12.registry_of t) lim s)
+        | Some t => Some (stream_val (registry_lim lim t) lim s)
         | None => None
         end
       else None
